@@ -60,7 +60,8 @@ CLAIMS = {
     "C07": ("§5 C07",
             "Solver-decided over model rand/x25519/HKDF primitives: the symmetric key and archive nonce of every configuration are the "
             "generator output for OS entropy drawn for that configuration (never a constant or a fixed seed; distinct entropy gives "
-            "distinct keys); the header carries the public key of an ephemeral scalar from fresh OS entropy; one wrapped key per recipient, "
+            "distinct keys); recipients handed over in several add_public_keys calls all stay; producing the header (to_persistent) draws fresh OS "
+            "entropy for the ephemeral scalar and the header carries that scalar's public key; one wrapped key per recipient, each "
             "computed as AES-GCM(HKDF-SHA256(X25519(eph, recipient), 'KEY DERIVATION'), 'ECIES NONCE0'); unwrap returns a key only for an "
             "entry whose tag verifies; candidate private keys are tried in turn and position does not matter; every byte the encryption "
             "writer forwards is plaintext XOR keystream of (key, nonce || BE32(chunk index)).",
@@ -76,9 +77,10 @@ CLAIMS = {
     "C09": ("§5 C09",
             "Solver-decided for the block serialisation kernel: a refused file start (name > 65536 bytes) writes nothing; a content source "
             "shorter than the announced size is never reported as success; a successful dump writes exactly header + announced bytes; "
-            "finalize() while a file is open is refused and leaves the writer state and the sink unchanged.",
-            CONTRACT_NOTE + "Not decided: everything that needs ArchiveWriter's state (files_info / ids_info / hashes HashMaps): duplicate names, "
-            "unknown or ended ids (anything that INSERTS into a HashMap does not finish; operations on empty tables do, with "
+            "finalize() while a file is open is refused and leaves the writer state and the sink unchanged; append_file_content / end_file "
+            "for ANY id and size on a writer with no open file are refused, write nothing and leave the bookkeeping untouched.",
+            CONTRACT_NOTE + "Not decided: everything that needs a populated ArchiveWriter state (files_info / ids_info / hashes HashMaps): "
+            "duplicate names, ended ids (anything that INSERTS into a HashMap does not finish; operations on empty tables do, with "
             "std::hash::RandomState::new stubbed by fixed keys)."),
     "C10": ("§5 C10",
             "Solver-decided as post-state independence: after seek(Start(p)) the observable reader state of the encryption and compression "
@@ -101,14 +103,19 @@ CLAIMS = {
             "Solver-decided with Kani's pointer checks on: every C entry point called with each pointer argument NULL, with missing "
             "callbacks, and with handle slots that hold NULL (handles the interface cleared on release) returns BadAPIArgument without "
             "dereferencing anything and without consuming the configuration; the callback-backed Write/Read adapters return exactly the "
-            "count the callback reported and map a non-zero status to an error.",
+            "count the callback reported and map a non-zero status to an error; (thorough tier) mla_archive_close on a writer that must "
+            "refuse to finalize (a file still open) returns an error, writes nothing, releases the writer once and leaves the caller's "
+            "handle slot NULL.",
             "Harness module appended to the real bindings/C/src/lib.rs; the mla dependency is a harness-free overlay copy (model crates for "
-            "aes/ctr/ghash/brotli). Not decided: archives produced or extracted through the C API and handle lifetime behind a real writer "
-            "(PEM parsing, RNG, HashMaps; seeded change C20-B there is missed)."),
+            "aes/ctr/ghash/brotli) to which a cfg(kani)-only constructor is appended (harness/plain_hooks) so that a writer can sit behind a "
+            "handle without running mla_archive_new. Not decided: archives produced or extracted through the C API (PEM parsing, RNG, "
+            "HashMap inserts), a close that fails while the footer is written."),
     "C14": ("§5 C14",
             "Solver-decided: when its input ends the fail-safe decompressor first delivers everything the decoder still holds (no Ok(0)/Err "
             "with pending output); flush of the position layer and of the compression writer (any block fill, also exactly 4 MiB) flushes "
-            "the compressor first and reaches the inner writer; the unauthenticated chunk load keeps a complete chunk whose tag is missing.",
+            "the compressor first and reaches the inner writer; ArchiveWriter::flush reaches the destination in every writer state (no file "
+            "open, a file open, finalized); after write + flush of the encryption writer the sink holds every accepted byte; the "
+            "unauthenticated chunk load keeps a complete chunk whose tag is missing.",
             CONTRACT_NOTE + "Assumes brotli's flush makes all input decodable (brotli contract). Not decided: write()/finalize() of the "
             "compression writer, the repair loop."),
 }
